@@ -209,3 +209,27 @@ REG.contract('C07', O, 'OptionStore.initialize_from_top_level_project_call',
              modifies=['self.values', 'self.pending_subproject_options'],
              opaque=TOPQ, opaque_attrs=NAMEA, opaque_fns=OFN, native_classes=['OptionKey'], floor=10,
              note='top-level precedence for dictionaries of any size: command line, then machine file, then project(default_options), then the value the store already held')
+
+# ---- per-machine classification and key normalisation (cross builds).  Option keys are opaque objects with the attributes
+# name / subproject / machine; OptionKey.evolve / as_host are uninterpreted with the facts listed as assumptions (checked
+# bounded on the real class by C07/bounded/OptionKey-facts).  The builtin per-machine table is read from the live module.
+from pyvc import src as _src_
+_MC_ = _src_.import_module('mesonbuild/utils/universal.py').MachineChoice
+PMQ = {'evolve': ([Opt(Str), Obj], Obj, ['subproject', 'machine']), 'as_host': ([], Obj), 'is_compopt': ([], Bool)}
+PMA = {'name': Str, 'subproject': Opt(Str), 'machine': Obj}
+PStore = Struct('OptionStore', 'mesonbuild.options:OptionStore', is_cross=Bool)
+EV0 = 'obj_evolve(optname, None, MachineChoice.HOST)'
+KEYFACTS = ['forall(Obj, Obj, lambda a, b: implies(attr_name(a) == attr_name(b) and attr_subproject(a) == attr_subproject(b) and attr_machine(a) is attr_machine(b), a is b))']
+REG.contract('C07', O, 'OptionStore.is_compiler_option', variant='pm', trusted=True, params={'self': PStore, 'key': Obj}, ensures=['result == obj_is_compopt(key)'], result=Bool,
+             opaque=PMQ, note='whether the name has a language prefix: an uninterpreted predicate of the key here')
+REG.contract('C07', O, 'OptionStore.is_per_machine_option', params={'self': PStore, 'optname': Obj},
+             assumes=[f'attr_name({EV0}) == attr_name(optname)', f'attr_subproject({EV0}) is None', f'attr_machine({EV0}) is MachineChoice.HOST'] + KEYFACTS,
+             ensures=["result == (attr_name(optname) in ('pkg_config_path', 'cmake_prefix_path') or obj_is_compopt(optname))"],
+             result=Bool, pure_expr="(attr_name(optname) in ('pkg_config_path', 'cmake_prefix_path') or obj_is_compopt(optname))",
+             opaque=PMQ, opaque_attrs=PMA, floor=1,
+             note='an option is per-machine iff its NAME is one of the builtin per-machine options (pkg_config_path, cmake_prefix_path) or it is a compiler option — whatever its subproject and machine')
+REG.contract('C07', O, 'OptionStore.ensure_and_validate_key', variant='real', params={'self': PStore, 'key': Obj}, requires=['not isinst(key, str)'],
+             ensures=["implies(self.is_cross and (attr_name(key) in ('pkg_config_path', 'cmake_prefix_path') or obj_is_compopt(key)), result is key)",
+                      "implies(not (self.is_cross and (attr_name(key) in ('pkg_config_path', 'cmake_prefix_path') or obj_is_compopt(key))), result is obj_as_host(key))"],
+             result=Obj, opaque=PMQ, opaque_attrs=PMA, floor=2,
+             note='a build-machine key keeps its machine only in a cross build and only for a per-machine option; every other key is folded onto the host machine (as_host). The merge contracts use the trusted identity form of this function: they are stated for host-machine keys')
